@@ -144,6 +144,12 @@ func corpus(w *lib.Writer) {
 		{Init: lit("abc\ndef\n12\nrest"), Ops: []Op{open("r"), rd(0, Fmt{K: "line", Long: true}), rd(0, fl, Fmt{K: "num", Long: true}), rd(0, Fmt{K: "all", Long: true}), op("close", 0), snp}, Flavour: "num"},
 		// flush/setvbuf on a handle that is only read succeed; the standard files are not closed
 		{Init: lit("abc"), Ops: []Op{open("r"), op("flush", 0), vb(0, "full", 0), vb(0, "no", 0), wr(0, "x"), Op{T: "stdclose", Which: "stdout"}, Op{T: "stdclose", Which: "stderr"}, op("close", 0), snp}},
+		// a read after a buffered write sees the pending bytes, which land at the cursor
+		{Init: lit("0123456789"), Ops: []Op{open("r+"), vb(0, "full", 0), wr(0, "AB"), rd(0, cnt(2)), wr(0, "C"), Op{T: "lines", H: 0, K: 2}, op("close", 0), snp}},
+		// the size of setvbuf is a hint (2^45 used to kill the process); bytes buffered on stderr arrive
+		// by the end of the state; a close whose flush fails returns nil, message and frees the descriptor
+		{Init: lit("abc"), Ops: []Op{open("a"), vb(0, "full", 1 << 45), wr(0, "x"), vb(0, "line", 1 << 62), wr(0, "y"), Op{T: "stdwrite", Strs: [][]Seg{lit("buffered on stderr\n")}}, Op{T: "lclose"}, snp}},
+		{Init: lit("abc"), Ops: []Op{Op{T: "devfull"}, open("r"), Op{T: "devfull"}, op("close", 0), snp}},
 		// an explicit nil is an absent optional argument
 		{Init: lit("abcdef\ng\n"), Ops: []Op{Op{T: "open", Mode: "r", NilArg: true}, rd(0, cnt(2)), Op{T: "seek", H: 0, Whence: "cur", Off: 2, NilArg: true}, Op{T: "seek", H: 0, Whence: "set", NilArg: true}, Op{T: "seek", H: 0, Whence: "cur", NilArg: true}, Op{T: "lines", H: 0, K: 1, Via: "io", NilArg: true}, op("close", 0), snp}},
 		// boundaries: counts across the buffer, read(0) at the end, holes
